@@ -1303,8 +1303,12 @@ impl<'a> GeneratorState<'a> {
             Statement::Return(e) => {
                 self.generate_return(e, code.pos)?;
             }
+            // The hardware access statements load the accumulator, transfer registers, decrement
+            // a dummy cell or run arbitrary assembly: what the flags described before is lost
             Statement::Asm(s, size) => {
                 self.generate_asm_statement(s, *size)?;
+                self.flags = FlagsState::Unknown;
+                self.carry_flag_ok = false;
             }
             Statement::Strobe(s) => {
                 self.generate_strobe_statement(s, code.pos)?;
@@ -1312,13 +1316,16 @@ impl<'a> GeneratorState<'a> {
             Statement::Store(e) => {
                 let param = self.generate_expr(e, code.pos, false, false)?;
                 self.generate_load_store_statement(&param, code.pos, false)?;
+                self.flags = FlagsState::Unknown;
             }
             Statement::Load(e) => {
                 let param = self.generate_expr(e, code.pos, false, false)?;
                 self.generate_load_store_statement(&param, code.pos, true)?;
+                self.flags = FlagsState::Unknown;
             }
             Statement::CSleep(s) => {
                 self.generate_csleep_statement(*s, code.pos)?;
+                self.flags = FlagsState::Unknown;
             }
             Statement::Goto(s) => {
                 self.generate_goto_statement(s)?;
